@@ -189,7 +189,7 @@ PROPS["C13"] = dict(
 )
 
 PROPS["C06"] = dict(
-    units=["xbin_compress", "xbin_load", "xbin_save"],
+    units=["xbin_compress", "xbin_load", "xbin_save", "save_dispatch"],
     trusted_base=COMMON_TRUST + [
         "Buffer::get_char is used through its contract r == comp(stack, pos) proved in unit `composite` (imported as an assumed contract here)",
         "TextAttribute::as_u8 is an uninterpreted function attr_byte(fg, bg, attr flags, ice mode): assumed to read exactly those four values (not the font page)",
@@ -242,7 +242,7 @@ PROPS["C17"] = dict(
 
 
 PROPS["C12"] = dict(
-    units=["color_opt", "color_opt_layer", "flat_clone"],
+    units=["color_opt", "color_opt_layer", "flat_clone", "save_dispatch"],
     kani_quick=["std_spec_u8_count_ones"],
     trusted_base=COMMON_TRUST + [
         "S9: u8::count_ones facts (0 <= n <= 8, n == 0 <=> b == 0, n == 8 <=> b == 0xFF) - proved by the Kani harness std_spec_u8_count_ones for all 256 values, assumed in the Verus unit",
